@@ -56,18 +56,23 @@ HANG_IS_VIOLATION = False
 WALL = {"quick": 130, "thorough": 1400}
 MAX_STEPS = 400_000
 RULE = (
-    "two legs, half of the budget each. seq: Colang 1.0 config (dialog rails on ~75%, 0-1 input rail of check/rewrite/shipped "
-    "self-check, 0-1 output rail, LLM parameters in fields or in model_kwargs) x 2-4 conversations of 1-3 turns, optional supplied "
-    "history of 1-3 user/assistant/context messages, texts = 1-3 parts joined by ':' where a part is an atom of a collision-prone "
-    "alphabet (a, b, a:b, ':', b:, JSON-looking strings, the predefined bot message) or a reference to a reply / to the ':'-joined "
-    "transcript of an earlier conversation (resolved from the isolated replays), optional log / streaming requests, sync or "
-    "async API, and a generated interleaving of all turns on one shared instance; every conversation is also replayed alone on a "
-    "fresh instance and replies, per-turn prompt multisets and LLM parameters at call start/end are compared. conc: 2-5 "
-    "conversations (1-2 turns, unique texts) as asyncio tasks on one instance under a virtual-time loop with generated start "
-    "offsets, per-call LLM latencies, per-task llm_params (temperature, max_tokens), log/streaming requests; same comparison "
-    "plus 'LLM parameters are the configured ones whenever no request is in flight'. Non-trivial: seq = some request finds, under "
-    "the ':'-joined key of a proper prefix of its messages, an entry written by another conversation, or overwrites one (harness "
-    "model of the cache); conc = two LLM calls of different tasks overlap in virtual time without nesting. Distinct by case hash."
+    "two legs, half of the generated cases each. seq: Colang 1.0 config (dialog rails on ~75%, 0-1 input rail of check/rewrite/shipped "
+    "self-check, 0-1 output rail; LLM parameters in real fields or in model_kwargs) x 2-4 conversations of 1-3 turns; texts = 1-3 parts "
+    "joined by ':' where a part is an atom of a collision-prone alphabet (a, b, a:b, ':', b:, JSON-looking strings, the predefined bot "
+    "message) or a reference resolved from the isolated replays (the reply / the ':'-joined transcript of an earlier conversation); "
+    "optional supplied history: user/assistant/context messages, or (2/3 of the later conversations) the transcript of an earlier "
+    "conversation re-spelled - adjacent messages merged with ':', roles swapped, context turned into its JSON text, cut; optional "
+    "log / streaming requests; generate or generate_async; a generated interleaving of all turns on ONE shared instance, full message "
+    "histories passed every turn. Each conversation is also replayed alone on a fresh instance; returned value (message, log, streamed "
+    "chunks), per-turn prompt multiset and LLM parameters at call start/end must be equal, and the LLM object's parameters must be the "
+    "configured ones after every turn. conc: 2-5 conversations (1-2 turns, unique texts) as asyncio tasks on one instance under a "
+    "virtual-time loop with generated start offsets, per-call LLM latencies, per-task llm_params (temperature, max_tokens), log / "
+    "streaming requests; same differential (calls compared in order) plus the configured-parameters invariant whenever no request is "
+    "in flight. While a finding is listed open, 3/4 of the conc cases come from the sub-domain that cannot trigger it (general mode, no "
+    "self-check rail, no llm_params). Non-trivial: seq = a request finds, under the ':'-joined key of a proper prefix of its messages, "
+    "an entry written by another conversation (identical prefix or colliding key), or overwrites another conversation's entry (harness "
+    "model of the cache); conc = LLM calls of two different tasks overlap without nesting in the loop's order of call starts/ends "
+    "(which refines virtual time). Distinct by case hash; only cases on which the property held are counted."
 )
 ASSUMPTIONS = [
     "the LLM is a pure function of the prompt (statement: 'and the LLM's answers to the prompts built from them'); fake rails are pure functions of the text they see",
@@ -222,14 +227,20 @@ class KwargsLLM(LLM):
 
     def _call(self, prompt: str, stop: Optional[List[str]] = None, run_manager: Any = None, **kwargs: Any) -> str:
         session, turn, k, task, rec = self._begin(prompt, stop)
-        return self._finish(session, rec, session.llm_answer(task, prompt, turn, k))
+        rec.update(t_start=kwargs.get("temperature", rec["t_start"]), mt_start=kwargs.get("max_tokens", rec["mt_start"]))
+        out = self._finish(session, rec, session.llm_answer(task, prompt, turn, k))
+        rec.update(t_end=kwargs.get("temperature", rec["t_end"]), mt_end=kwargs.get("max_tokens", rec["mt_end"]))
+        return out
 
     async def _acall(self, prompt: str, stop: Optional[List[str]] = None, run_manager: Any = None, **kwargs: Any) -> str:
         session, turn, k, task, rec = self._begin(prompt, stop)
+        rec.update(t_start=kwargs.get("temperature", rec["t_start"]), mt_start=kwargs.get("max_tokens", rec["mt_start"]))
         lat = session.llm_latency(turn, k, task)
         if lat:
             await asyncio.sleep(lat)
-        return self._finish(session, rec, session.llm_answer(task, prompt, turn, k))
+        out = self._finish(session, rec, session.llm_answer(task, prompt, turn, k))
+        rec.update(t_end=kwargs.get("temperature", rec["t_end"]), mt_end=kwargs.get("max_tokens", rec["mt_end"]))
+        return out
 
     def snapshot(self):
         return {"model_kwargs": dict(self.model_kwargs)}
